@@ -175,6 +175,11 @@ bool StepScript(InterpreterEnv& env)
     auto& is_p2sh = env.is_p2sh;
     auto& serror = env.serror;
 
+    // Bitcoin evaluates scriptSig, scriptPubKey and redeem script separately: each must close its own
+    // conditionals, and each starts with an empty alt stack
+    if ((is_p2sh || env.successor_script.size()) && !vfExec.empty())
+        return set_error(serror, SCRIPT_ERR_UNBALANCED_CONDITIONAL);
+
     if (is_p2sh) {
         if (stack.empty())
             return set_error(serror, SCRIPT_ERR_EVAL_FALSE);
@@ -207,6 +212,7 @@ bool StepScript(InterpreterEnv& env)
             pend = script.end();
             env.curr_op_seq++;
             env.nOpCount = 0; // reset to avoid hitting limit prematurely!
+            env.altstack.clear();
             return true;
         }
         return set_error(serror, SCRIPT_ERR_BAD_OPCODE);
@@ -235,6 +241,7 @@ bool StepScript(InterpreterEnv& env)
             env.p2shstack = env.stack;
         }
         env.nOpCount = 0; // reset to avoid hitting limit prematurely!
+        env.altstack.clear();
         return true;
     }
 
